@@ -189,11 +189,12 @@ async def _scenario(loop, sc, k, intervention, after=None):
             loop.counting = False
         res["iterations"] = loop.iteration
         res["fired"] = fired.done()
-        if state.get("what", {}).get("kind") == "vanish":
+        if state.get("what", {}).get("kind") in ("vanish", "vanish-control"):
             # the peer is gone for good: endpoints it was in the middle of creating go too
             await loop.settle()
+            only_control = state["what"]["kind"] == "vanish-control"
             for t in list(wd.net.all_transports):
-                if t.name.startswith("c") and not t.closed:
+                if t.name.startswith("c") and not t.closed and (not only_control or getattr(t, "port", None) == wd.port):
                     t.vanish()
         await loop.settle()
         # crash-point context, read before anything is released
@@ -206,9 +207,7 @@ async def _scenario(loop, sc, k, intervention, after=None):
         }
         res["context"]["data_half_closed"] = state.get("data_half_closed", False)
         if "close_task" in state:
-            # Server.close() cancels every dispatcher registered at that moment: whatever is still registered and
-            # running afterwards was accepted before, but started after, the close
-            res["context"]["undispatched_connections"] = len(wd.server.connections)
+            res["context"]["undispatched_connections"] = state.get("undispatched_at_close", 0)
         # backend / listener delays are finite: let every held call go on, then look at the ledger
         for g in [g for _, g in spy.gate_name.values()] + list(spy.gates.values()) + list(getattr(wd.net, "used_gates", [])):
             g.open()
@@ -226,6 +225,7 @@ async def _scenario(loop, sc, k, intervention, after=None):
         res["cfg"] = {"maximum_connections": sc.server_kwargs.get("maximum_connections"), "data_ports": list(sc.server_kwargs.get("data_ports") or []) or None}
         res["tree"] = wd.tree()
         res["wd_spy_log"] = len(spy.log)
+        res["spy_calls"] = [n for _, n, _ in spy.log]
     finally:
         # release anything still held at a gate so that the loop can be torn down
         for g in list(spy.gates.values()) + [g for _, g in spy.gate_name.values()] + list(wd.net.start_gates) + list(getattr(wd.net, "used_gates", [])):
@@ -282,8 +282,41 @@ def cut_vanish_first(ctl, script_task, state):
     return {"kind": "vanish-first", "cancel_script": True}
 
 
+async def _close_probe(wd, state):
+    """Server.close(), noting - at the instant it starts to execute - how many control connections have been
+    accepted whose dispatcher task has not started yet (they are invisible to close())"""
+    registered = {key.writer.transport for key in wd.server.connections}
+    live = [t for t in wd.net.all_transports if t.name.startswith("s") and getattr(t, "port", None) == wd.port and not t.closing and not t.closed]
+    state["undispatched_at_close"] = len([t for t in live if t not in registered])
+    await wd.server.close()
+
+
+def cut_vanish_control(ctl, script_task, state):
+    """only the control connections disappear; data connections stay open (and unread)"""
+    for t in list(ctl.wd.net.all_transports):
+        if t.name.startswith("c") and getattr(t, "port", None) == ctl.wd.port and not t.closed:
+            t.vanish()
+    return {"kind": "vanish-control"}
+
+
+def cut_close_and_connect(ctl, script_task, state):
+    """server.close() and, in the same instant, a new client trying to connect"""
+    wd = ctl.wd
+    state["close_task"] = ctl.loop.create_task(_close_probe(wd, state))
+
+    async def late():
+        try:
+            r, w = await wd.net.open_connection(wd.net.host, wd.port)
+            state["late_connected"] = True
+            state["late_writer"] = w
+        except OSError:
+            state["late_connected"] = False
+
+    state["late_task"] = ctl.loop.create_task(late())
+    return {"kind": "server-close+connect"}
+
+
 def cut_server_close(ctl, script_task, state):
     wd = ctl.wd
-    state["undispatched"] = max(0, wd.net.listeners[wd.port].active - len(wd.server.connections)) if wd.port in wd.net.listeners else 0
-    state["close_task"] = ctl.loop.create_task(ctl.wd.server.close())
+    state["close_task"] = ctl.loop.create_task(_close_probe(wd, state))
     return {"kind": "server-close"}
